@@ -48,6 +48,7 @@ type world struct {
 	CookieName string
 	Inject     [][2]string // sorted by key, canonical keys distinct
 	Allowed    []string    // UpstreamConfig.AllowedGroups (sorted)
+	FavSkip    bool        // a skip_auth_regex of this world matches /favicon.ico
 }
 
 type sessSpec struct {
@@ -68,6 +69,11 @@ type caseSpec struct {
 	// answers: "" (nothing due), "refresh" (/refresh 201 NewToken, /profile 200 ProfileGroups),
 	// "validate" (/validate 200, /profile 200 ProfileGroups), "grace-refresh" / "grace-validate"
 	// (/refresh resp. /validate 503 inside the grace period).
+	// Route: "" = a path under PathPrefix("/") (Path, or a default by mode); "favicon" = /favicon.ico
+	// (Favicon handler: Authenticate, then Proxy); "none" = a route that never calls the upstream
+	// handler (Path says which), expected not to reach the backend at all.
+	Route         string   `json:"route,omitempty"`
+	Path          string   `json:"path,omitempty"`
 	Due           string   `json:"due,omitempty"`
 	NewToken      string   `json:"new_token,omitempty"`
 	ProfileGroups []string `json:"profile_groups,omitempty"`
@@ -84,20 +90,25 @@ func buildWorlds(backend *c.Backend, auth *c.FakeAuth, dir string) []*world {
 		cookie  string
 		inject  map[string]string
 		allowed []string // nil: no group rule (allowed_email_domains "*" instead)
+		favSkip bool
 	}{
-		{"plain", "_sso_proxy", nil, stdAllowed},
-		{"inject-custom", "_sso_proxy", map[string]string{"X-Custom-Team": "blue"}, stdAllowed},
-		{"inject-user-groups", "_sso_proxy", map[string]string{"X-Forwarded-User": "injected-user", "x-forwarded-groups": "inj-g"}, stdAllowed},
-		{"inject-token-email", "_sso_proxy", map[string]string{"X-Forwarded-Access-Token": "injected-token", "X-FORWARDED-EMAIL": "inj@x"}, stdAllowed},
-		{"cookie-sid", "sid", nil, stdAllowed},
-		{"inject-cookie", "_sso_proxy", map[string]string{"Cookie": "inj=1; _sso_proxy=fake"}, stdAllowed},
-		{"no-group-rule", "_sso_proxy", nil, nil},
+		{"plain", "_sso_proxy", nil, stdAllowed, false},
+		{"inject-custom", "_sso_proxy", map[string]string{"X-Custom-Team": "blue"}, stdAllowed, false},
+		{"inject-user-groups", "_sso_proxy", map[string]string{"X-Forwarded-User": "injected-user", "x-forwarded-groups": "inj-g"}, stdAllowed, false},
+		{"inject-token-email", "_sso_proxy", map[string]string{"X-Forwarded-Access-Token": "injected-token", "X-FORWARDED-EMAIL": "inj@x"}, stdAllowed, false},
+		{"cookie-sid", "sid", nil, stdAllowed, false},
+		{"inject-cookie", "_sso_proxy", map[string]string{"Cookie": "inj=1; _sso_proxy=fake"}, stdAllowed, false},
+		{"no-group-rule", "_sso_proxy", nil, nil, false},
+		{"favicon-skip", "_sso_proxy", map[string]string{"X-Custom-Team": "blue"}, stdAllowed, true},
 	}
 	var ws []*world
 	for _, s := range specs {
 		var b strings.Builder
 		b.WriteString("- service: c03\n  default:\n    from: " + host + "\n    to: " + backend.HostPort() + "\n    options:\n")
 		b.WriteString("      skip_auth_regex:\n        - ^/public\n")
+		if s.favSkip {
+			b.WriteString("        - ^/favicon\\.ico$\n")
+		}
 		// written although parseOptionsConfig ignores them today: a repair that starts copying
 		// them must not silently change what the driver believes
 		var inj [][2]string
@@ -118,7 +129,7 @@ func buildWorlds(backend *c.Backend, auth *c.FakeAuth, dir string) []*world {
 		}
 		pw, err := c.BuildProxy(opts, auth)
 		c.Must(err)
-		w := &world{Name: s.name, pw: pw, CookieName: s.cookie, Inject: inj, Allowed: s.allowed}
+		w := &world{Name: s.name, pw: pw, CookieName: s.cookie, Inject: inj, Allowed: s.allowed, FavSkip: s.favSkip}
 		w.srv = httptest.NewServer(pw.Handler)
 		ws = append(ws, w)
 	}
@@ -219,6 +230,12 @@ func run(ws []*world, backend *c.Backend, cs caseSpec, r *c.Rng) c.Case {
 	case "preflight":
 		method, path = "OPTIONS", "/private/api"
 	}
+	if cs.Path != "" {
+		path = cs.Path
+	}
+	if cs.Route == "favicon" {
+		path = "/favicon.ico"
+	}
 	var b strings.Builder
 	fmt.Fprintf(&b, "%s %s HTTP/1.1\r\nHost: %s\r\n", method, path, host)
 	closeAfter := false
@@ -238,6 +255,10 @@ func run(ws []*world, backend *c.Backend, cs caseSpec, r *c.Rng) c.Case {
 		c.Must(err)
 	}
 	seen := backend.Take()
+	if cs.Route == "none" {
+		return c.Case{Coq: fmt.Sprintf("CaseNoUpstream %s %s", pairs(cs.Headers), c.Bool(len(seen) != 0)),
+			JSON: map[string]interface{}{"world": w.Name, "spec": cs, "status": status, "backend_requests": len(seen)}}
+	}
 	var o observation
 	o.Status = status
 	for _, ck := range setCookies {
@@ -302,8 +323,14 @@ func coqCase(w *world, cs caseSpec, o observation) string {
 		c.Str(w.CookieName), c.Bool(cs.Pass), pairs(w.Inject))
 	mode := "SkipAuth"
 	due := "NotDue"
+	route := "RProxy"
+	if cs.Route == "favicon" {
+		route = "(RFavicon " + coqSession(cs.Sess) + ")"
+	}
 	if cs.Mode == "auth" {
-		mode = "(Authenticated " + coqSession(cs.Sess) + ")"
+		if !(cs.Route == "favicon" && w.FavSkip) { // Favicon authenticates, then Proxy finds the request whitelisted
+			mode = "(Authenticated " + coqSession(cs.Sess) + ")"
+		}
 		switch cs.Due {
 		case "refresh":
 			due = fmt.Sprintf("(RefreshDue %s %s)", c.Str(cs.NewToken), c.Strs(cs.ProfileGroups))
@@ -317,7 +344,7 @@ func coqCase(w *world, cs caseSpec, o observation) string {
 	if o.Saved != nil {
 		saved = "(Some " + coqSession(*o.Saved) + ")"
 	}
-	return fmt.Sprintf("Case %s %s %s %s %s %s %s %s %s %s %s %s %s %s", c.Bool(scrubs), cfg, mode, c.Strs(w.Allowed), due,
+	return fmt.Sprintf("Case %s %s %s %s %s %s %s %s %s %s %s %s %s %s %s", c.Bool(scrubs), cfg, route, mode, c.Strs(w.Allowed), due,
 		pairs(cs.Headers), c.Bool(o.Forwarded), saved,
 		c.Strs(o.User), c.Strs(o.Email), c.Strs(o.Groups), c.Strs(o.Token), c.Strs(o.CookieLines), pairs(o.Cookies))
 }
@@ -375,8 +402,66 @@ func genProfileGroups(r *c.Rng, allowed []string) []string {
 	return gs
 }
 
+// relatedNames derives cookie names from the session cookie's name systematically: separators and
+// words on either side (the CSRF cookie <name>_csrf among them), doubling, case variants and all
+// single-character edits. None equals cn; all are RFC tokens, so each is "another well-formed
+// cookie" that must be forwarded.
+func relatedNames(cn string) []string {
+	seen := map[string]bool{cn: true, "": true}
+	var out []string
+	add := func(s string) {
+		if !seen[s] {
+			seen[s] = true
+			out = append(out, s)
+		}
+	}
+	for _, w := range []string{"csrf", "internal", "x", "1", "id"} {
+		for _, sep := range []string{"_", "-", ".", ""} {
+			add(cn + sep + w)
+			add(w + sep + cn)
+		}
+	}
+	add(cn + cn)
+	add(cn + "_" + cn)
+	add(cn + "_")
+	add("_" + cn)
+	add(cn + "-")
+	add(cn + ".")
+	add(strings.ToUpper(cn))
+	add(strings.ToLower(cn))
+	for i := 0; i < len(cn); i++ {
+		add(cn[:i] + cn[i+1:])                                // delete
+		add(cn[:i] + "x" + cn[i+1:])                          // replace
+		add(cn[:i] + "x" + cn[i:])                            // insert
+		add(cn[:i] + strings.ToUpper(cn[i:i+1]) + cn[i+1:])   // case of one letter
+		if i+1 < len(cn) {
+			add(cn[:i] + cn[i+1:i+2] + cn[i:i+1] + cn[i+2:]) // transpose
+		}
+	}
+	return out
+}
+
+func familyHeaders(cn string, from, to int, sessionPart string) [][2]string {
+	names := relatedNames(cn)
+	if to > len(names) {
+		to = len(names)
+	}
+	var parts []string
+	if sessionPart != "" {
+		parts = append(parts, sessionPart)
+	}
+	for i := from; i < to; i++ {
+		parts = append(parts, fmt.Sprintf("%s=v%d", names[i], i))
+	}
+	return [][2]string{{"Cookie", strings.Join(parts, "; ")}}
+}
+
 // cookie parts that never parse as a cookie named cn (so they may precede the session cookie)
 func foreignPart(r *c.Rng, cn string) string {
+	if r.Chance(0.4) {
+		names := relatedNames(cn)
+		return names[r.Intn(len(names))] + "=" + r.Pick([]string{"1", "v", "a b", "\"q\"", ""})
+	}
 	pool := []string{
 		"a=b", "theme=dark", "q=\"quoted\"", "sp=a b", "cm=a,b", "e=", "eq=\"\"", "k=v=w", "=novalue", "noequals",
 		"bad name=x", "x=\"a\"b\"", "l= lead", "u=\xc3\xbc", "t=a\tb", "bs=a\\b", "dq=\"", "one=\"x", "two=x\"",
@@ -501,6 +586,20 @@ func genCase(r *c.Rng, ws []*world) caseSpec {
 		}
 	}
 	cn := ws[cs.World].CookieName
+	switch cs.Mode {
+	case "auth":
+		cs.Path = r.Pick([]string{"", "/", "/a/b/c", "/oauth2", "/oauth2/other", "/oauth2/authx", "/oauth2/callback/x", "/favicon.ico/x",
+			"/favicon.icox", "/Favicon.ico", "/robots.txt2", "/ping2", "/PING", "/index.html?q=/public", "/xpublic", "/private/favicon.ico"})
+		if w.FavSkip && r.Chance(0.5) || !w.FavSkip && cs.World != 5 && r.Chance(0.12) {
+			// world 5 injects a Cookie header: Favicon's own Authenticate then replaces the session
+			// cookie and the second Authenticate inside Proxy starts a sign-in; not a C03 case
+			cs.Route, cs.Path = "favicon", ""
+		}
+	case "skip":
+		cs.Path = r.Pick([]string{"", "/public", "/publicx", "/public/favicon.ico", "/public/oauth2/auth", "/public/x?y=1"})
+	case "preflight":
+		cs.Path = r.Pick([]string{"", "/", "/oauth2/other", "/anything"})
+	}
 	var hs [][2]string
 	// identity headers, any spelling, 0-3 values
 	for _, name := range idNames {
@@ -579,6 +678,31 @@ func stableShuffle(r *c.Rng, hs [][2]string) [][2]string {
 	return out
 }
 
+// routes that never call the upstream handler, with the full client-header lattice on each
+var noUpstreamPaths = []string{"/robots.txt", "/oauth2/v1/certs", "/oauth2/auth", "/oauth2/sign_out", "/oauth2/callback",
+	"/oauth2/callback?code=x&state=y", "/ping", "/favicon.ico"}
+
+func genNoUpstream(r *c.Rng, ws []*world) caseSpec {
+	cs := genCase(r, ws)
+	cs.Route, cs.Due = "none", ""
+	cs.Path = r.Pick(noUpstreamPaths)
+	if cs.Path == "/favicon.ico" {
+		// Favicon answers 404 unless its own Authenticate succeeds: present no usable session
+		cs.Mode = "skip"
+		var hs [][2]string
+		for _, h := range cs.Headers {
+			if !strings.EqualFold(h[0], "Cookie") {
+				hs = append(hs, h)
+			}
+		}
+		if r.Chance(0.5) {
+			hs = append(hs, [2]string{"Cookie", ws[cs.World].CookieName + "=garbage; a=b"})
+		}
+		cs.Headers = hs
+	}
+	return cs
+}
+
 func corpus() []caseSpec {
 	s := sessSpec{User: "bob", Email: "bob@corp.test", Groups: []string{"g1", "g2"}, Token: "tok-123"}
 	ck := func(v string) [2]string { return [2]string{"Cookie", v} }
@@ -632,6 +756,32 @@ func corpus() []caseSpec {
 			Headers: [][2]string{ck(sc)}},
 		{World: 2, Mode: "auth", Pass: true, Sess: sessSpec{User: "bob", Email: "bob@corp.test", Groups: []string{"team"}, Token: "old-token"},
 			Due: "refresh", NewToken: "rotated-3", ProfileGroups: []string{"eng", "team"}, Headers: [][2]string{ck(sc), {"Connection", "close"}}},
+		// /favicon.ico: Favicon = Authenticate then Proxy; spoofed identity headers in every spelling
+		{World: 0, Mode: "auth", Route: "favicon", Pass: false, Sess: s, Note: "favicon, option off, client access token",
+			Headers: [][2]string{ck(sc), {"X-Forwarded-Access-Token", "stolen"}, {"x-forwarded-access-token", "stolen2"}}},
+		{World: 0, Mode: "auth", Route: "favicon", Pass: true, Sess: s, Headers: [][2]string{ck("a=b; " + sc + "; _sso_proxy_csrf=c"),
+			{"X-FORWARDED-USER", "evil"}, {"X-Forwarded-Email", "evil@x"}, {"x-forwarded-groups", "root"}, {"X-Forwarded-Access-Token", "stolen"}}},
+		{World: 0, Mode: "auth", Route: "favicon", Pass: true, Sess: sessSpec{User: "bob", Email: "bob@corp.test", Groups: []string{"team", "eng"}, Token: "old-token"},
+			Due: "refresh", NewToken: "rotated-4", ProfileGroups: []string{"team"}, Headers: [][2]string{ck(sc)}},
+		{World: 3, Mode: "auth", Route: "favicon", Pass: false, Sess: s, Headers: [][2]string{ck(sc), {"X-Forwarded-Access-Token", "stolen"}}},
+		{World: 7, Mode: "auth", Route: "favicon", Pass: true, Sess: s, Note: "favicon whitelisted by a skip pattern",
+			Headers: [][2]string{ck(sc + "; keep=1"), {"X-Forwarded-User", "evil"}, {"X-Forwarded-Access-Token", "stolen"}}},
+		{World: 7, Mode: "auth", Route: "favicon", Pass: true, Sess: sessSpec{User: "bob", Email: "bob@corp.test", Groups: []string{"team", "eng"}, Token: "old-token"},
+			Due: "validate", ProfileGroups: []string{"ops"}, Headers: [][2]string{ck(sc)}},
+		{World: 0, Mode: "auth", Path: "/favicon.ico/x", Pass: false, Sess: s, Headers: [][2]string{ck(sc), {"X-Forwarded-Access-Token", "stolen"}}},
+		// the name family of the session cookie: every one of them is another cookie and is forwarded
+		{World: 0, Mode: "auth", Sess: s, Note: "cookie-name family 1", Headers: familyHeaders("_sso_proxy", 0, 50, sc)},
+		{World: 0, Mode: "skip", Sess: s, Note: "cookie-name family 2", Headers: familyHeaders("_sso_proxy", 50, 120, sc)},
+		{World: 4, Mode: "auth", Sess: s, Note: "cookie-name family sid", Headers: familyHeaders("sid", 0, 80, "sid="+placeholder)},
+		{World: 0, Mode: "skip", Sess: s, Headers: [][2]string{ck("_sso_proxy_csrf=token; _sso_proxy_internal=1; _sso_proxy_=2; _sso_proxy=x; _sso_proxy__sso_proxy=3")}},
+		// routes that never reach the upstream
+		{World: 0, Mode: "auth", Route: "none", Path: "/oauth2/auth", Sess: s, Headers: [][2]string{ck(sc), {"X-Forwarded-User", "evil"}}},
+		{World: 0, Mode: "skip", Route: "none", Path: "/favicon.ico", Sess: s, Headers: [][2]string{{"X-Forwarded-Access-Token", "stolen"}}},
+		{World: 0, Mode: "auth", Route: "none", Path: "/robots.txt", Sess: s, Headers: [][2]string{ck(sc)}},
+		{World: 0, Mode: "auth", Route: "none", Path: "/ping", Sess: s, Headers: [][2]string{ck(sc)}},
+		{World: 0, Mode: "auth", Route: "none", Path: "/oauth2/sign_out", Sess: s, Headers: [][2]string{ck(sc)}},
+		{World: 0, Mode: "auth", Route: "none", Path: "/oauth2/callback", Sess: s, Headers: [][2]string{ck(sc)}},
+		{World: 0, Mode: "auth", Route: "none", Path: "/oauth2/v1/certs", Sess: s, Headers: [][2]string{ck(sc)}},
 	}
 }
 
@@ -683,6 +833,10 @@ func main() {
 		}
 	}
 	for i := 0; i < a.N; i++ {
+		if i%16 == 15 {
+			cases = append(cases, run(ws, backend, genNoUpstream(r, ws), r))
+			continue
+		}
 		cases = append(cases, run(ws, backend, genCase(r, ws), r))
 	}
 	c.Must(c.WriteShards(a.Out, "Corr_C03", cases, a.Shard))
